@@ -1445,3 +1445,84 @@ Proof.
                                  (fun s nb b r t => X12.BridgeUnknown.attr_Unknown0 impl dec cs s nb b r t)).
 Qed.
 Print Assumptions C02_bridge_unknown_attributes.
+
+(* ================================================================================================ *)
+(* Round 6, seventh layer — unknown attributes and three more kinds inside the fragment (coq/X12/BridgeFmt3.v, BridgeFile4.v). *)
+From FB Require X12.BridgeFmt3 X12.BridgeFile4.
+
+(* THE WHOLE FILE, fragment 4 (dclass_frag4 dec, decidable on facts_of t aux and the decoder) = fragment 3
+   + unknown attributes at class / field / method level and inside Code, each with a decoded name outside C01's 31
+     known names (unk_ok) — read back verbatim: decoded name, exactly the bytes, in order;
+   + EnclosingMethod, PermittedSubclasses (class), MethodParameters (method) *)
+Theorem C02_bridge_class_file_unknown : forall impl dec t bs aux d,
+  cclass_ok t = true -> write_class_aux t = WOK (bs, aux) ->
+  C01.Attr.header_ok C01.Tables.magic (Z.to_N (k_minor t)) (Z.to_N (k_major t)) = true ->
+  X12.BridgeClass.pool_utf8_ok dec (a_pool aux) = true -> X12.BridgeFile4.names_ok4 dec = true ->
+  facts_of t aux = Some d -> X12.BridgeFile4.dclass_frag4 dec d = true ->
+  exists cs cattrs mvals,
+    rev (p_inner (a_pool aux)) = map mk cs /\ agrees (a_pool aux) (cslots cs 1) /\
+    Forall2 (X12.BridgeFile4.crel4 dec cs) (d_attrs d) cattrs /\
+    Forall2 (X12.BridgeFile3.member_rel dec 2%N (X12.BridgeFile4.mrel4 dec)) (d_methods d) mvals /\
+    C01.ClassFile.read_class impl dec bs
+    = C01.ClassFile.build_class impl (X12.BridgePool.rpool dec cs) (Z.to_N (k_minor t)) (Z.to_N (k_major t))
+        (X12.BridgeClass.head_val dec t)
+        (C01.Fmt.VList cattrs)
+        (C01.Fmt.VList (map (X12.BridgeFile.member_val dec 1%N (X12.BridgeFile4.fattr_val4 dec)) (d_fields d)))
+        (C01.Fmt.VList mvals).
+Proof. exact X12.BridgeFile4.class_file_read4. Qed.
+Print Assumptions C02_bridge_class_file_unknown.
+
+(* non-vacuity: a class with EnclosingMethod, NestHost, PermittedSubclasses, SourceFile and an unknown attribute "X"; a field
+   with an unknown attribute; a method with MethodParameters, an unknown attribute, and inside its Code a frame, a line
+   number and an unknown attribute: inside fragment 4, outside fragment 3; C01's read_class on the written bytes, computed,
+   keeps one unknown attribute at each of the four levels *)
+Theorem C02_bridge_class_file_unknown_example : exists bs aux d cs cattrs mvals,
+  write_class_aux X12.BridgeFile4.ex_file4 = WOK (bs, aux) /\ cclass_ok X12.BridgeFile4.ex_file4 = true /\
+  facts_of X12.BridgeFile4.ex_file4 aux = Some d /\
+  X12.BridgeFile4.in_fragment4 C01.Mutf8.mutf8_dec X12.BridgeFile4.ex_file4 aux = true /\
+  X12.BridgeFile3.in_fragment3 X12.BridgeFile4.ex_file4 aux = false /\
+  Forall2 (X12.BridgeFile4.crel4 C01.Mutf8.mutf8_dec cs) (d_attrs d) cattrs /\ length cattrs = 5%nat /\
+  Forall2 (X12.BridgeFile3.member_rel C01.Mutf8.mutf8_dec 2%N (X12.BridgeFile4.mrel4 C01.Mutf8.mutf8_dec)) (d_methods d) mvals /\
+  C01.ClassFile.read_class true C01.Mutf8.mutf8_dec bs
+  = C01.ClassFile.build_class true (X12.BridgePool.rpool C01.Mutf8.mutf8_dec cs) 0%N 61%N
+      (X12.BridgeClass.head_val C01.Mutf8.mutf8_dec X12.BridgeFile4.ex_file4)
+      (C01.Fmt.VList cattrs)
+      (C01.Fmt.VList (map (X12.BridgeFile.member_val C01.Mutf8.mutf8_dec 1%N (X12.BridgeFile4.fattr_val4 C01.Mutf8.mutf8_dec)) (d_fields d)))
+      (C01.Fmt.VList mvals) /\
+  X12.BridgeFile4.desc_check4 (C01.ClassFile.read_class true C01.Mutf8.mutf8_dec bs) = true.
+Proof. exact X12.BridgeFile4.class_file_example4. Qed.
+Print Assumptions C02_bridge_class_file_unknown_example.
+
+(* THE FRAMES LAND ON THE TRANSLATED INSTRUCTIONS (coq/X12/BridgeAttach.v): composition of C02_frames_written, the layout
+   agreement of the code-array bridge, C01's attach rule (C01_frames_attached) and, through C02_bridge_stack_map_table,
+   C01's own reading of the attribute.  For what write_code_f writes for a body with frames: the written StackMapTable
+   decodes to the tree's frames at offsets that are exactly the offsets C01's layout gives the translated instructions
+   FI = fidx … (the first instruction of every entry that carries a frame); and frames queued at these offsets are
+   attached by C01's reader, in order, to exactly the instructions FI: the m-th frame of the tree on instruction FI[m] *)
+From FB Require X12.BridgeAttach.
+Theorem C02_bridge_frames_attach : forall hasmax b last tb fs w Wd rt sm,
+  unique_labels b last -> frames_ok fs = true -> length fs = length b ->
+  write_code_f hasmax b last tb fs = Some (OK (w, Wd, rt, Some sm)) ->
+  let chs := chs_run Wd 0%N 0 [] b in
+  X12.BridgeDefs.body_in chs b = true ->
+  let body' := X12.BridgeDefs.tr_body chs b last in
+  let posf := C01.Model.posf_of (C01.Model.layout (X12.BridgeDefs.tr_ch chs b) body') in
+  let FI := X12.BridgeAttach.fidx chs 0 b fs in
+  exists ds,
+    dec_stack_map sm = Some ds /\ tree_frames (labpos chs 0 b last) (positions chs 0 b) fs = Some ds /\
+    map (fun e => Z.to_N (fst e)) ds = map posf FI /\
+    C01.Theory4.incr_from 0 FI /\ (forall f, In f FI -> (f < length body')%nat) /\
+    (forall is : list (C01.Model.ainsn N), length is = length body' ->
+       C01.Model.attach (combine (map posf (seq 0 (length is))) is) (map posf FI) 0 = C01.Theory4.attach_idx 0 (length is) FI 0) /\
+    (forall m f, nth_error FI m = Some f -> nth_error (C01.Theory4.attach_idx 0 (length body') FI 0) f = Some (Some m)).
+Proof. exact X12.BridgeAttach.frames_attach. Qed.
+Print Assumptions C02_bridge_frames_attach.
+
+Theorem C02_bridge_frames_attach_example : exists w rt sm,
+  write_code_f true X12.BridgeAttach.exa_b None X12.BridgeAttach.exa_tb X12.BridgeAttach.exa_fs = Some (OK (w, [], rt, Some sm)) /\
+  unique_labels X12.BridgeAttach.exa_b None /\ frames_ok X12.BridgeAttach.exa_fs = true /\
+  length X12.BridgeAttach.exa_fs = length X12.BridgeAttach.exa_b /\
+  X12.BridgeDefs.body_in (chs_run [] 0%N 0 [] X12.BridgeAttach.exa_b) X12.BridgeAttach.exa_b = true /\
+  X12.BridgeAttach.fidx (chs_run [] 0%N 0 [] X12.BridgeAttach.exa_b) 0 X12.BridgeAttach.exa_b X12.BridgeAttach.exa_fs = [2%nat].
+Proof. exact X12.BridgeAttach.attach_example. Qed.
+Print Assumptions C02_bridge_frames_attach_example.
